@@ -155,6 +155,9 @@ func c02Check(c *C02Case, r *core.Rec) {
 	if n1+n2 <= 12 && len(c.T) >= 2 {
 		calls += c02Rewrite(c, r)
 	}
+	if n1+n2 <= 12 && c.T == nil {
+		calls += c02Alternate(c, r)
+	}
 	if stride == 1 {
 		if !r.Err("mass", math.Abs(sum-1), c02Tol) {
 			r.Fail("mass", "sum of PMF over attainable points = %v", sum)
@@ -220,6 +223,43 @@ func c02Rewrite(c *C02Case, r *core.Rec) (calls int64) {
 				calls += 2
 				if !r.Err("rewrite", math.Abs(got-want), c02Tol) {
 					r.Fail("T-rewritten-in-place", "UDist{%d,%d,T}: after a %s query with T=%v the slice was rewritten to %v; %s=%v, exact %v", n1, n2, q[:3], vecs[first], vecs[1-first], what, got, want)
+					return
+				}
+			}
+		}
+	}
+	return
+}
+
+// c02Alternate: distributions of neighbouring sizes are queried alternately at the
+// same points (untied path): each answers for its own sizes.
+func c02Alternate(c *C02Case, r *core.Rec) (calls int64) {
+	n1, n2 := c.N1, c.N2
+	type dd struct {
+		d stats.UDist
+		u *ref.UNull
+	}
+	var ds []dd
+	for _, sz := range [][2]int{{n1, n2}, {n1, n2 + 1}, {n1, n2 + 3}, {n1 + 1, n2}, {n2 + 2, n1}} {
+		ds = append(ds, dd{stats.UDist{N1: sz[0], N2: sz[1]}, c03Null(sz[0], sz[1], nil)})
+	}
+	for v := 0; v <= 2*n1*n2+2; v += 2 {
+		U := float64(v) / 2
+		for round := 0; round < 2; round++ {
+			for _, x := range ds {
+				var got, want float64
+				var what string
+				if round == 0 {
+					got, want, what = x.d.CDF(U), x.u.LE(v), "CDF"
+				} else {
+					if !x.u.Attainable(v) {
+						continue
+					}
+					got, want, what = x.d.PMF(U), x.u.PMF(v), "PMF"
+				}
+				calls++
+				if !r.Err("alternate", math.Abs(got-want), c02Tol) {
+					r.Fail("sizes-alternated", "UDist{%d,%d}.%s(%v)=%v while distributions of sizes around {%d,%d} are queried alternately; exact %v", x.d.N1, x.d.N2, what, U, got, n1, n2, want)
 					return
 				}
 			}
